@@ -6,9 +6,11 @@ documented densities).  Binding: every TLC-generated history is replayed step by
 parameter of every exported kernel / likelihood / mean class found by introspection; the transform contract is swept
 over the float range; prior densities are compared with mpmath (checks/c17_priors.py)."""
 import ast
+import copy
 import inspect
 import math
 import os
+import pickle
 import random
 import re
 
@@ -18,8 +20,11 @@ LEVEL = "model_checking"
 PID = "C17"
 
 NAN, ANYV, NOIV = 13, 99, 99
-OPS = {1: "Set", 2: "InitRaw", 3: "ByName", 4: "OptStep", 5: "Register", 6: "Sample", 7: "Closure"}
+OPS = {1: "Set", 2: "InitRaw", 3: "ByName", 4: "OptStep", 5: "Register", 6: "Sample", 7: "Closure",
+       8: "Load", 9: "Bound", 10: "Convert", 11: "Copy"}
 SETTERS = (1, 3, 6, 7)
+CONTRACT_SWEEP = True              # transform contract of the live constraint object after every such operation
+BOUND_OPS = (5, 8, 9, 10, 11)      # operations after which the constraint's bounds / object may have changed
 RAWNAME = {-1: "-inf", 1: "very negative", 2: "moderate", 3: "very positive", 9: "+inf", 13: "nan"}
 
 # ---------------------------------------------------------------------------------------------
@@ -32,9 +37,12 @@ CONS = {
     "LT": [(0, 10, NOIV, "softplus"), (0, 8, NOIV, "softplus"), (4, 8, 6, "sigmoid"), (2, 12, NOIV, "softplus"), (0, 8, 7, "exp"), (2, 10, NOIV, "sigmoid")],
 }
 ALLV = list(range(14))
+ALLBOUND = [(0, 2), (0, 4), (1, 8), (1, 10)]
 FULL = dict(SetV=ALLV, RawA=[-1, 1, 2, 3, 9, 13], NameA=[(v, p) for v in ALLV for p in (0, 1)], OptK=[1, 2, 3],
-            RegA=[(1, 1)] + [(i, r) for i in range(2, 7) for r in (0, 1)], SampV=[1, 3, 5, 6, 7, 9, 11], ClosV=ALLV)
-EMPTY = dict(SetV=[], RawA=[], NameA=[], OptK=[], RegA=[], SampV=[], ClosV=[])
+            RegA=[(1, 1)] + [(i, r) for i in range(2, 7) for r in (0, 1)], SampV=[1, 3, 5, 6, 7, 9, 11], ClosV=ALLV,
+            LoadA=[(i, v) for i in range(1, 7) for v in (3, 6, 9, ANYV)], BoundA=ALLBOUND, ConvA=[0, 1], CopyA=[0])
+EMPTY = dict(SetV=[], RawA=[], NameA=[], OptK=[], RegA=[], SampV=[], ClosV=[], LoadA=[], BoundA=[], ConvA=[], CopyA=[])
+ALPH_KEYS = ("SetV", "RawA", "NameA", "OptK", "RegA", "SampV", "ClosV", "LoadA", "BoundA", "ConvA", "CopyA")
 # name -> (alphabet, length quick, length thorough (0 = not run), needs a prior closure)
 GEN_RUNS = {
     "vals": (FULL, 2, 2, True),
@@ -42,6 +50,12 @@ GEN_RUNS = {
     "init": (dict(EMPTY, RawA=[-1, 2, 9, 13], NameA=[(1, 0), (6, 1), (11, 1)], SetV=[7], OptK=[2]), 4, 4, False),
     "register": (dict(EMPTY, RegA=[(2, 1), (3, 1), (4, 1), (3, 0), (5, 1)], SetV=[1, 5, 11], OptK=[3]), 4, 4, False),
     "prior": (dict(EMPTY, SampV=[1, 6, 11], ClosV=[1, 2, 6, 13], SetV=[6], RegA=[(3, 1)]), 4, 4, True),
+    # the bounds of the EXISTING constraint object change (load_state_dict with other bounds, assignment to the bound buffers,
+    # dtype conversion, deepcopy, register_constraint) and the setter / rejection / optimiser steps follow against the current bounds
+    "bounds": (dict(EMPTY, LoadA=[(i, 6) for i in range(1, 7)] + [(1, ANYV)], BoundA=ALLBOUND, ConvA=[0, 1], CopyA=[0],
+                    SetV=[3, 9], OptK=[1, 3], RegA=[(3, 1)], RawA=[9]), 3, 3, False),
+    "bounds4": (dict(EMPTY, LoadA=[(1, 5), (2, 6), (3, 7), (5, 3), (6, ANYV)], BoundA=[(0, 4), (1, 8), (1, 10)], ConvA=[1], CopyA=[0],
+                     SetV=[9], OptK=[3], RegA=[(3, 1)]), 0, 4, False),
     "setopt5": (dict(EMPTY, SetV=[1, 2, 6, 11], OptK=[1, 3], RawA=[-1]), 0, 5, False),
     "init5": (dict(EMPTY, RawA=[-1, 2, 13], NameA=[(1, 0), (6, 1)], SetV=[7], OptK=[2]), 0, 5, False),
     "register5": (dict(EMPTY, RegA=[(2, 1), (3, 1), (4, 1), (3, 0)], SetV=[1, 5], OptK=[3]), 0, 5, False),
@@ -58,16 +72,16 @@ def write_mc(workdir, name, cons, alph, maxlen, record, intersect_raises=True):
     mod = "MC_Constraint_" + name
     src = ["---- MODULE %s ----" % mod, "EXTENDS Constraint",
            "ConsDef == << " + ", ".join('[lo |-> %d, hi |-> %d, iv |-> %d, tf |-> "%s"]' % c for c in cons) + " >>"]
-    for k in ("SetV", "RawA", "NameA", "OptK", "RegA", "SampV", "ClosV"):
+    for k in ALPH_KEYS:
         src.append("%sDef == %s" % (k, _set(alph[k])))
     src.append("====")
     with open(os.path.join(workdir, mod + ".tla"), "w") as f:
         f.write("\n".join(src) + "\n")
     cfg = os.path.join(workdir, mod + ".cfg")
-    consts = {k: "<- %sDef" % k for k in ("Cons", "SetV", "RawA", "NameA", "OptK", "RegA", "SampV", "ClosV")}
+    consts = {k: "<- %sDef" % k for k in ("Cons",) + ALPH_KEYS}
     consts.update(MaxLen=maxlen, RecordHist=record, IntersectRaises=intersect_raises)
-    tlc.write_cfg(cfg, spec="Spec", constants=consts, invariants=["TypeOK", "InBounds", "Agree"],
-                  properties=["SetThenRead", "RejectIffOutside", "RawInitChecked"])
+    tlc.write_cfg(cfg, spec="Spec", constants=consts, invariants=["TypeOK", "InBounds", "Agree", "ContractNow"],
+                  properties=["SetThenRead", "RejectIffOutside", "RawInitChecked", "LoadRestores", "BoundsFollow"])
     return os.path.join(workdir, mod + ".tla"), cfg
 
 
@@ -512,6 +526,7 @@ def _run_history(torch, gp, desc, hist, seed, trace, cur, notes):
     cons = CONS[desc["kind"]]
     lo, hi = cons[0][0], cons[0][1]
     expected = None           # concrete tensor the property requires to be read, or None (closed interval only)
+    expect_clause = ["SetThenRead"]
     last_conc = {}
     pname = pub + "_prior"
     holder = None
@@ -523,7 +538,67 @@ def _run_history(torch, gp, desc, hist, seed, trace, cur, notes):
             s = torch.maximum(s, torch.where(torch.isfinite(b), b.abs(), torch.zeros_like(b)) + torch.zeros_like(s))
         return s
 
-    def check_state(i, what, lo_i, hi_i):
+    def live():
+        return owner._constraints[cname]
+
+    def check_bounds_reported(i, what, lo_i, hi_i, deep):
+        """The constraint's attributes (and, deep, the module's state_dict) report the bounds the history has arrived at."""
+        c = live()
+        srcs = [("attribute", c.lower_bound, c.upper_bound)]
+        if deep:
+            sd = root.state_dict()
+            pre = ".".join(parts[:-1] + [cname])
+            if pre + ".lower_bound" in sd and pre + ".upper_bound" in sd:
+                srcs.append(("state_dict entry", sd[pre + ".lower_bound"], sd[pre + ".upper_bound"]))
+        for nm, Lr, Hr in srcs:
+            for side, got, want in (("lower_bound", Lr, grid.B[lo_i]), ("upper_bound", Hr, grid.B[hi_i])):
+                got = got.detach().to(torch.float64)
+                try:
+                    g, w = torch.broadcast_tensors(got, want)
+                    same = bool((g == w).all())
+                except RuntimeError:
+                    same = False
+                if not same:
+                    raise Fail("BoundsReported", "after step %d (%s) the %s %s is %s, the bound in force is %s" % (i, what, nm, side, fmt(got), fmt(want)))
+
+    def check_contract(i, what, lo_i, hi_i):
+        """Transform contract of the LIVE constraint object against the bounds now in force (ContractNow)."""
+        c = live()
+        L, H = grid.full(grid.B[lo_i]), grid.full(grid.B[hi_i])
+        scale = tol_scale(lo_i, hi_i)
+        slack = 4e-15 * scale
+        R = _SWEEP(torch).reshape(-1, *([1] * len(grid.shape))) + torch.zeros(grid.shape, dtype=torch.float64)
+        ok_, T = core.guarded(lambda: c.transform(R))
+        if not ok_:
+            raise Fail("RangeClosed", "after step %d (%s) transform raised %s" % (i, what, T))
+        T = T.detach().to(torch.float64)
+        bad = torch.isnan(T) | (T < L - slack) | (T > H + slack)
+        if bool(bad.any()):
+            j = bad.nonzero()[0].tolist()
+            raise Fail("RangeClosed", "after step %d (%s) transform(%r) = %r is outside the closed interval [%r, %r] the constraint reports" % (
+                i, what, float(R[tuple(j)]), float(T[tuple(j)]), float(L[tuple(j[1:])]), float(H[tuple(j[1:])])))
+        d = T[1:] - T[:-1]
+        tolm = 1e-9 * torch.maximum(torch.maximum(T[1:].abs(), T[:-1].abs()).clamp(max=1e300), scale)
+        badm = ((d < -tolm) & torch.isfinite(T[1:]) & torch.isfinite(T[:-1])) | (torch.isinf(T[:-1]) & (T[1:] < T[:-1]))
+        if bool(badm.any()):
+            j = badm.nonzero()[0].tolist()
+            raise Fail("Monotone", "after step %d (%s) transform(%r) = %r > transform(%r) = %r" % (
+                i, what, float(R[tuple(j)]), float(T[tuple(j)]), float(R[tuple([j[0] + 1] + j[1:])]), float(T[tuple([j[0] + 1] + j[1:])])))
+        vals = torch.stack([grid.full(x) for v in (5, 6, 7) for x in grid.family(v)])       # strictly inside every constraint of the lattice
+        ok_, back = core.guarded(lambda: c.transform(c.inverse_transform(vals)))
+        if not ok_:
+            raise Fail("InverseOnInterior", "after step %d (%s) inverse_transform / transform raised %s" % (i, what, back))
+        back = back.detach().to(torch.float64)
+        badi = ~((back - vals).abs() <= 1e-10 * torch.maximum(vals.abs(), scale))
+        if bool(badi.any()):
+            j = badi.nonzero()[0].tolist()
+            raise Fail("InverseOnInterior", "after step %d (%s) transform(inverse_transform(%r)) = %r with bounds [%r, %r]" % (
+                i, what, float(vals[tuple(j)]), float(back[tuple(j)]), float(L[tuple(j[1:])]), float(H[tuple(j[1:])])))
+
+    def check_state(i, what, lo_i, hi_i, bounds_op=False):
+        check_bounds_reported(i, what, lo_i, hi_i, bounds_op)
+        if bounds_op and CONTRACT_SWEEP:
+            check_contract(i, what, lo_i, hi_i)
         val = read()
         L, H = grid.full(grid.B[lo_i]), grid.full(grid.B[hi_i])
         slack = 4e-15 * tol_scale(lo_i, hi_i)      # rounding of sigmoid(x) * (hi - lo) + lo at saturation
@@ -540,13 +615,20 @@ def _run_history(torch, gp, desc, hist, seed, trace, cur, notes):
             ok = torch.where(fin, (val - expected).abs() <= tol, val == expected)
             if not bool(ok.all()):
                 j = int((~ok).reshape(-1).nonzero()[0])
-                raise Fail("SetThenRead", "after step %d (%s) the parameter reads %r, the value stored was %r" % (
+                raise Fail(expect_clause[0], "after step %d (%s) the parameter reads %r, the value stored was %r" % (
                     i, what, float(val.reshape(-1)[j]), float(expected.reshape(-1)[j])))
         if pname in owner._priors:
             cl = owner._priors[pname][1](owner).detach().to(torch.float64)
             if not _same(torch, cl.reshape(val.shape) if cl.numel() == val.numel() else cl, val):
                 raise Fail("PriorClosureReadsConstrained", "after step %d (%s) the prior closure returns %s, the parameter reads %s" % (i, what, fmt(cl), fmt(val)))
         return val
+
+    def unpositive(new_lo):
+        """Positive is the class `lower bound = 0` (its transform does not read the buffer): a history that gives the parameter
+        another lower bound is the history of a GreaterThan - exchanged through register_constraint, value unchanged."""
+        lc = live()
+        if isinstance(lc, gp.constraints.Positive) and not bool((grid.B[new_lo] == 0).all()):
+            owner.register_constraint(rawn, gp.constraints.GreaterThan(lc.lower_bound.clone(), transform=lc._transform, inv_transform=lc._inv_transform))
 
     check_state(0, "construction", lo, hi)
     steps = 0
@@ -557,6 +639,7 @@ def _run_history(torch, gp, desc, hist, seed, trace, cur, notes):
         con_before = owner._constraints[cname]
         concrete = None
         clear_out = True
+        near_bound = False
         if op in SETTERS:
             concrete = grid.conc(a, rnd)
             if sem == 0 and a != NAN and concrete.numel() > 1 and rnd.random() < 0.3:
@@ -577,7 +660,8 @@ def _run_history(torch, gp, desc, hist, seed, trace, cur, notes):
             else:
                 form = "tensor"
                 box = [concrete.clone()]
-        what = "%s(%s)" % (opn, vclass(a, lo, hi) if op in SETTERS else RAWNAME.get(a, a) if op in (2, 4) else "%s, replace=%s" % (cons[a - 1], bool(b)))
+        what = "%s(%s)" % (opn, vclass(a, lo, hi) if op in SETTERS else RAWNAME.get(a, a) if op in (2, 4) else
+                           "%s, replace=%s" % (cons[a - 1], bool(b)) if op == 5 else _argname(op, a, b, cons))
         if op == 1:
             call = lambda: setattr(owner, pub, box[0])
         elif op == 3:
@@ -640,11 +724,94 @@ def _run_history(torch, gp, desc, hist, seed, trace, cur, notes):
                 concrete = grid.full(concrete.reshape(-1)[0] if not grid.bshape else concrete.reshape(-1, *grid.bshape)[0])
             newc = make_constraint(torch, gp, grid, cons[a - 1], rnd, concrete)
             call = lambda: owner.register_constraint(rawn, newc, replace=bool(b))
+        elif op == 8:
+            # load_state_dict from a model of the same architecture whose constraint was CONSTRUCTED with other bounds
+            c_new = cons[b - 1]
+            unpositive(c_new[0])
+            lc = live()
+            tgt = {}
+            for side, gi in (("lower_bound", c_new[0]), ("upper_bound", c_new[1])):
+                cur_b = getattr(lc, side)
+                shp = torch.broadcast_shapes(tuple(cur_b.shape), tuple(grid.B[gi].shape))
+                if tuple(cur_b.shape) != tuple(shp):
+                    # state dicts restore buffers of equal shape: give the live bound its broadcast shape first (same values)
+                    setattr(lc, side, cur_b.expand(shp).clone())
+                tgt[side] = grid.B[gi].expand(shp).clone()
+            src_root = build_root(torch, gp, desc)
+            src_owner = _resolve(src_root, parts)
+            srccon = fresh_like(torch, gp, lc, tgt["lower_bound"], tgt["upper_bound"])
+            for cn in [cn for cn, cv in owner._constraints.items() if cv is lc]:
+                # same architecture: parameters that share the constraint object in the live model share it in the saved one
+                src_owner.register_constraint(cn[:-len("_constraint")], srccon)
+            if a != ANYV:
+                concrete = grid.conc(a, rnd)
+                ok_s, info_s = core.guarded(lambda: setattr(src_owner, pub, concrete.clone()))
+                if not ok_s:
+                    raise Fail("RejectIffOutside", "step %d %s: on the model to be saved the assignment of %s (bounds [%s, %s]) was refused: %s" % (
+                        i, what, fmt(concrete), fmt(tgt["lower_bound"]), fmt(tgt["upper_bound"]), info_s))
+            whole = rnd.random() < 0.6
+            state = (src_root if whole else src_owner).state_dict()
+            pre = (".".join(parts[:-1]) + "." if (whole and len(parts) > 1) else "")
+            for k in (pre + rawn, pre + cname + ".lower_bound", pre + cname + ".upper_bound"):
+                if k not in state:
+                    raise core.Machinery("state dict of %s has no key %s" % (desc["cls"], k))
+            dest = root if whole else owner
+            live_sd = dest.state_dict()
+            for k, v in list(state.items()):
+                # OTHER constraints whose bound buffers were given a broadcast shape earlier in this history (objects shared
+                # between parameters): a state dict restores buffers of equal shape only, so save them in that shape
+                if k.endswith("_bound") and k in live_sd and v.shape != live_sd[k].shape and cname + "." not in k:
+                    try:
+                        state[k] = v.expand(live_sd[k].shape).clone()
+                    except RuntimeError:
+                        pass
+            call = lambda: dest.load_state_dict(state, strict=False)
+        elif op == 9:
+            if a == 0:
+                unpositive(b)
+            lc = live()
+            side = "upper_bound" if a else "lower_bound"
+            newb = grid.B[b].clone()
+            cur_b = getattr(lc, side)
+            how = rnd.choice(("assign", "assign", "copy_", "owner"))
+            if how == "copy_" and tuple(torch.broadcast_shapes(tuple(cur_b.shape), tuple(newb.shape))) == tuple(cur_b.shape):
+                call = lambda: cur_b.copy_(newb)
+            elif how == "owner":
+                call = lambda: setattr(getattr(owner, cname), side, newb)
+            else:
+                call = lambda: setattr(lc, side, newb)
+        elif op == 10:
+            f32 = False
+            if a == 1:
+                rb = {g: grid.B[g].to(torch.float32).to(torch.float64) for g in (2, 4, 8, 10)}
+                rmid = grid.mid.to(torch.float32).to(torch.float64)
+                f32 = all(bool(torch.isfinite(x).all()) for x in rb.values()) and bool(
+                    ((rb[2] < rb[4]) & (rb[4] < rmid) & (rmid < rb[8]) & (rb[8] < rb[10]) & ((rmid - rb[4]) > 1e-3 * (rb[8] - rb[4])) & ((rb[8] - rmid) > 1e-3 * (rb[8] - rb[4]))).all())
+            if f32:
+                target = rnd.choice((root, root, owner))
+                call = lambda: target.float().double()
+            else:
+                target, how = rnd.choice(((root, "double"), (root, "to"), (owner, "double"), (live(), "double"), (root, "cpu"), (owner, "type")))
+                call = {"double": lambda: target.double(), "to": lambda: target.to(torch.float64), "cpu": lambda: target.to("cpu"),
+                        "type": lambda: target.type(torch.float64)}[how]
+        elif op == 11:
+            box = [None]
+
+            def call():
+                # (a pickle round trip, a = 1, is not generated: most modules hold local lambdas as prior closures)
+                box[0] = copy.deepcopy(root) if a == 0 else pickle.loads(pickle.dumps(root))
         else:
             raise core.Machinery("unknown op %r" % (op,))
         esem = sem
         if op in SETTERS and sem == 0 and not clear_out:
             esem = 2              # within rounding of a bound: the property decides rejection at clearly outside values
+        if op in SETTERS and sem == 1 and op != 6:
+            L, H = grid.full(grid.B[lo]), grid.full(grid.B[hi])
+            if bool((torch.minimum(concrete - L, H - concrete) <= 4e-15 * tol_scale(lo, hi)).any()):
+                # inside, but within the rounding of (hi - lo) + lo of a bound: acceptance is not decided by the property
+                # (when accepted the value must read back); same slack as the closed-interval check
+                esem = 2
+                near_bound = True
         ok, info = core.guarded(call)
         if not ok and op in SETTERS and op != 6 and esem == 1 and form != "tensor" and _same(torch, rawp().detach(), raw_before):
             # some setters take tensors of the parameter's shape only; python floats / 0-d tensors are outside the claim
@@ -657,6 +824,27 @@ def _run_history(torch, gp, desc, hist, seed, trace, cur, notes):
             owner.register_prior(pname, placeholder_prior(gp), closure, setting)    # do not leave a narrow support behind
         say("%d %s -> %s" % (i, what, "ok" if ok else info[:80]))
         steps += 1
+        if op in (8, 9, 10, 11):
+            if not ok:
+                if op == 11:
+                    # whether a module can be deep-copied at all is not a statement of C17
+                    if notes is not None:
+                        notes.add("%s(%s) raised: %s" % ("deepcopy" if a == 0 else "pickle round trip", desc["cls"], info[:90]))
+                    raise Stop()
+                raise Fail("Accepted", "step %d %s raised: %s" % (i, what, info))
+            if op == 11:
+                root = box[0]
+                owner = _resolve(root, parts)
+                holder = None
+            if op == 10 and f32:
+                for g in (2, 4, 8, 10):
+                    grid.B[g] = rb[g]
+                grid.mid = rmid
+                last_conc.clear()
+            if op == 8 and not isinstance(info, str) and info is not None:
+                miss = [k for k in getattr(info, "missing_keys", []) if k.endswith(rawn) or cname + "." in k]
+                if miss:
+                    raise core.Machinery("load_state_dict did not find %s" % miss)
         # --- accepted / rejected against the semantic machine -------------------------------------
         if esem == 1 and not ok:
             raise Fail("RejectIffOutside" if op in (1, 3) else "ClosureStores" if op in (6, 7) else "Accepted", "step %d %s with %s was refused: %s" % (
@@ -668,6 +856,8 @@ def _run_history(torch, gp, desc, hist, seed, trace, cur, notes):
             # a rejected operation leaves the state unchanged
             if not _same(torch, rawp().detach(), raw_before) or owner._constraints[cname] is not con_before:
                 raise Fail("RejectedUnchanged", "step %d %s was refused (%s) but changed the state: raw %s -> %s" % (i, what, info, fmt(raw_before), fmt(rawp())))
+        if near_bound and not ok and notes is not None:
+            notes.add("value within rounding of a bound refused: %s.%s" % (desc["owner"], pub))
         if esem == 2 and ok != bool(acc):
             # the property leaves the outcome open and the implementation took the branch the generated history does not follow
             if ok:
@@ -681,13 +871,51 @@ def _run_history(torch, gp, desc, hist, seed, trace, cur, notes):
         if ok:
             if al == ANYV:
                 expected = None
-            elif op in SETTERS or op == 5:
+                if op in (9, 10):
+                    # BoundsFollow: a saturated parameter keeps reading the bound now in force
+                    r_now = rawp().detach()
+                    if bool((r_now == -math.inf).all()):
+                        expected = grid.bound(lo)
+                    elif bool((r_now == math.inf).all()):
+                        expected = grid.bound(hi)
+                    expect_clause[0] = "BoundsFollow"
+            elif op in SETTERS or op in (5, 8):
                 last_conc[al] = concrete
                 expected = concrete
+                expect_clause[0] = "LoadRestores" if op == 8 else "SetThenRead"
+            elif op == 10 and expected is not None:
+                pass                                  # identity conversion: the value required before is still required
             else:
                 expected = last_conc.get(al)
-        check_state(i, what, lo, hi)
+        check_state(i, what, lo, hi, op in BOUND_OPS)
     return steps
+
+
+_SWEEP_T = []
+
+
+def _SWEEP(torch):
+    if not _SWEEP_T:
+        _SWEEP_T.append(torch.tensor([-1e300, -800.0, -40.0, -5.0, -1.0, -0.1, 0.0, 0.1, 1.0, 5.0, 40.0, 800.0, 1e300], dtype=torch.float64))
+    return _SWEEP_T[0]
+
+
+def _resolve(root, parts):
+    owner = root
+    for q in parts[:-1]:
+        owner = getattr(owner, q)
+    return owner
+
+
+def fresh_like(torch, gp, con, lower, upper):
+    """A constraint of the class / transform of `con`, constructed with the given bounds (tensors)."""
+    C = gp.constraints
+    kw = dict(transform=con._transform, inv_transform=con._inv_transform)
+    if isinstance(con, C.LessThan):
+        return C.LessThan(upper.clone(), **kw)
+    if isinstance(con, C.GreaterThan):
+        return C.GreaterThan(lower.clone(), **kw)
+    return C.Interval(lower.clone(), upper.clone(), **kw)
 
 
 def _intersection(cons, a, lo, hi):
@@ -695,18 +923,28 @@ def _intersection(cons, a, lo, hi):
     return max(lo, c[0]), min(hi, c[1])
 
 
+def _argname(op, a, b, cons):
+    if op == 8:
+        return "bounds %s, value %s" % (cons[b - 1][:2], "default" if a == ANYV else a)
+    if op == 9:
+        return "%s := %d" % ("upper" if a else "lower", b)
+    if op == 10:
+        return "float32 round trip" if a else "to float64"
+    return "pickle" if a else "deepcopy"
+
+
 def describe(hist):
     out = []
     for op, a, b, sem, acc, al, lo, hi in hist:
-        s = "%s(%s%s)" % (OPS[op], a, ",%d" % b if op in (3, 5) else "")
+        s = "%s(%s%s)" % (OPS[op], a, ",%d" % b if op in (3, 5, 8, 9) else "")
         s += {0: "!rej", 1: "", 2: "?"}[sem]
         out.append(s)
     return " ; ".join(out)
 
 
 def nontrivial(hist):
-    changed = any(acc and op in (1, 3, 5, 6, 7) for op, a, b, sem, acc, al, lo, hi in hist)
-    edge = any((sem != 1) or op in (4, 5) or (op == 2 and a != 2) for op, a, b, sem, acc, al, lo, hi in hist)
+    changed = any(acc and op in (1, 3, 5, 6, 7, 8) for op, a, b, sem, acc, al, lo, hi in hist)
+    edge = any((sem != 1) or op in (4, 5, 8, 9, 10, 11) or (op == 2 and a != 2) for op, a, b, sem, acc, al, lo, hi in hist)
     return changed and edge
 
 
@@ -767,8 +1005,8 @@ def run(ck):
     t0, phases = time.time(), {}
     ck.extra["phase_s"] = phases
     ck.rule = ("histories = every sequence of Set / InitializeRaw / InitializeByName / OptStep / RegisterConstraint / SampleFromPrior / "
-               "SetViaPriorClosure of the Constraint.tla machine up to the run's length (2 with the full value alphabet, 4 (quick) and 5 (thorough) "
-               "with reduced alphabets), replayed on constrained parameters of every exported class; non-trivial = contains an accepted "
+               "SetViaPriorClosure / LoadStateDict(other bounds) / AssignBound / Convert(dtype) / Deepcopy of the Constraint.tla machine up to the "
+               "run's length (2 with the full value alphabet, 3-4 (quick) and 4-5 (thorough) with reduced alphabets), replayed on constrained parameters of every exported class; non-trivial = contains an accepted "
                "assignment and at least one of: rejected / exact-bound / non-finite value, optimiser step, constraint exchange, saturating raw "
                "value; distinct = distinct (class, variant, parameter, operation sequence).  Further cases: transform-contract cells and prior "
                "density points (see sections)")
@@ -777,7 +1015,17 @@ def run(ck):
         "out-of-bounds assignments must be rejected at clearly outside values (further than 1e-6 * max(1, |bound|) from the interval, "
         "or NaN); assignments within rounding of a bound and assignments of exactly a bound (including +-inf for a half-open constraint) may "
         "be accepted or rejected as coded - when accepted the value read back must be the bound",
-        "a value strictly inside the interval must be accepted and read back to 1e-9 relative to max(|value|, finite |bounds|)",
+        "a value strictly inside the interval must be accepted and read back to 1e-9 relative to max(|value|, finite |bounds|); a value "
+        "inside but within 4e-15 * max finite |bound| of a bound (the rounding of (hi - lo) + lo) may be refused as coded - when accepted "
+        "it must read back",
+        "the bounds in force are the ones the constraint's lower_bound / upper_bound attributes and the module's state_dict report; they "
+        "must be the bounds last constructed / loaded / assigned, and every clause is checked against them after load_state_dict (from a "
+        "model of the same architecture: same constraint class and transform, bound buffers of equal shape, strict=False because the "
+        "history may have registered a prior), assignment to the bound buffers (attribute assignment and in-place copy_), "
+        ".double() / .to(float64) / .cpu() / .float().double() (checked after the return to float64 against the float32-rounded bounds), "
+        "copy.deepcopy and register_constraint",
+        "Positive is the class `lower bound = 0` (its transform does not read the lower_bound buffer): a history that gives such a parameter "
+        "another lower bound continues on an equivalent GreaterThan(0) exchanged through register_constraint",
         "the closed interval is checked with a slack of 4e-15 * max finite |bound| for the rounding of sigmoid(x)*(hi-lo)+lo at saturation",
         "register_constraint(replace=False): the property does not fix the outcome of Interval.intersect; either a refusal that leaves the "
         "state unchanged or the intersection is accepted",
@@ -836,7 +1084,7 @@ def run(ck):
         elif res.rc != 0:
             raise tlc.TLCError("TLC failed on %s %s %s:\n%s" % (what, kind, name, res.stdout[-1500:]))
         if what == "mc":
-            ck.require_coverage(res, ["Assign", "InitRaw", "OptStep", "Register"])
+            ck.require_coverage(res, ["Assign", "InitRaw", "OptStep", "Register", "LoadState", "AssignBound", "Convert", "Copy"])
             continue
         if what == "priors":
             prior_points = res.states()
@@ -862,7 +1110,7 @@ def run(ck):
                 assign.setdefault(ci, []).append(h)
         for ci, hs in assign.items():
             for k in range(0, len(hs), 40):
-                items.append(dict(desc=pool[ci], hists=hs[k:k + 40], seed=ck.seed * 1000003 + len(items) * 97, sample=(k == 0 and ci == 0 and (kind, name) in (("GT", "vals"), ("GT", "register"), ("IV", "setopt"), ("IV", "prior")))))
+                items.append(dict(desc=pool[ci], hists=hs[k:k + 40], seed=ck.seed * 1000003 + len(items) * 97, sample=(k == 0 and ci == 0 and (kind, name) in (("GT", "vals"), ("GT", "register"), ("IV", "setopt"), ("IV", "prior"), ("IV", "bounds")))))
     for op, nm in OPS.items():
         if not taken.get(op):
             ck.vacuous("no generated history contains the action %s" % nm)
